@@ -37,7 +37,7 @@ Init ==
               aud : TokAuds, iss : TokIsss, kid : Kids, eps : ClaimSets]
   /\ hdr \in [x : XHdrs, authz : AuthzHdrs, scheme : Schemes]
   /\ ten \in [table : TenantTables, hdr : TenantHdrs, signedFor : SignedFor]
-  /\ tgt \in [host : HostLabels, header : EpHeaders, path : PathEps]
+  /\ tgt \in [host : HostLabels, header : EpHeaders, path : PathEps, fwd : BOOLEAN]
   \* the key-id only matters with a JWKS; tenants only on the upstream port
   /\ ("JWKS" \notin conf.keys => tok.kid = "known")
 
@@ -123,6 +123,8 @@ XPikoTakesPrecedence == (hdr.x = "bad" => ~Accept) /\ (hdr.x = "good" /\ hdr.aut
 \* the endpoint a request names: the URL path parameter on the TCP and upstream
 \* routes; on the HTTP route EndpointIDFromRequest: the x-piko-endpoint header
 \* first, else the first Host label
+\* (tgt.fwd: the client itself sends x-piko-forward: true - the marker nodes put on forwarded requests; it
+\* decides whether the request may be forwarded again, never whether the token permits the endpoint)
 Routed(t) == IF t.path # "" THEN t.path ELSE IF t.header # "" THEN t.header ELSE t.host
 Permitted(claims, ep) == claims = {} \/ ep \in claims
 
